@@ -258,7 +258,10 @@ func (c *fnCtx) staticModComps(ci calleeInfo) []string {
 // modItemComps resolves one modifies item ("p.f", "p.f[*]", "Type.f", "$mem:T") statically.
 func (c *fnCtx) modItemComps(ci calleeInfo, item string) []string {
 	if strings.HasPrefix(item, "g_") {
-		return []string{"$g:" + item}
+		// ghost variables named in a modifies clause (g_open) are balanced by every callee that
+		// has no contract of its own (that is the callee's own obligation); only variables
+		// declared with ghostmod propagate through the mod-set analysis
+		return nil
 	}
 	if strings.HasPrefix(item, "$mem:") || strings.HasPrefix(item, "$ghost:") {
 		if strings.HasPrefix(item, "$ghost:") {
